@@ -9,9 +9,12 @@ cd "$repo" || exit 2
 git diff --quiet || { echo "$repo is dirty"; exit 2; }
 git apply "$patch" || { echo "patch does not apply"; exit 2; }
 cd "$verif"; start=$(date +%s)
+# evidence files describe runs on the unchanged tree: keep them as they were
+evsave=$(mktemp -d /tmp/try_mutant_ev.XXXXXX); cp -p evidence/*.json $evsave/ 2>/dev/null
 ./check $prop $tier > $out 2>&1; rc=$?
 end=$(date +%s)
 git -C "$repo" checkout -- .
+cp -p $evsave/*.json evidence/ 2>/dev/null; rm -rf $evsave
 grep -E "violated|VIOLATION|HARNESS|expected:|observed:" $out | cut -c1-260 | head -6
 rm -f $out
 echo "exit=$rc secs=$((end-start))"
